@@ -1,4 +1,289 @@
-import Kap.Basic
+/-
+Driver for C11: reads the cases produced by the Go harness (which ran the REAL InfluxQL node inside a real
+task), and for each case
+  * evaluates the SPEC (Kap/Spec/C11.lean) on the inputs and compares it with the OBSERVED output of the real
+    code (difference ⇒ SPECFAIL, or KNOWN when a recorded deviation clause explains exactly that difference);
+  * runs the MODEL (Kap/Model/C11.lean) on the same inputs and compares it with the observed output
+    (difference ⇒ MISMATCH: the tie between model and code is broken).
+-/
+import Kap.Spec.C11
+open Kap Kap.C11
 
-/-- Driver for property C11 (replaced by the property's driver). -/
-def main : IO Unit := Kap.driverMain (fun _ _ => .badop "driver not implemented")
+namespace Kap.C11.Drv
+
+def hexToU64 (s : String) : Option UInt64 :=
+  if s.length != 16 then none else
+  s.toList.foldlM (fun (acc : UInt64) c => (hexVal c).map (fun d => acc * 16 + UInt64.ofNat d)) 0
+
+def hexDigitL (n : Nat) : Char := if n < 10 then Char.ofNat ('0'.toNat + n) else Char.ofNat ('a'.toNat + (n - 10))
+
+def u64ToHex (x : UInt64) : String :=
+  String.ofList ((List.range 16).reverse.map (fun i => hexDigitL ((x.toNat >>> (4 * i)) % 16)))
+
+def parseVal (s : String) : Option Val :=
+  match s.toList with
+  | 'i' :: ':' :: r => (String.ofList r).toInt?.map .int
+  | 'f' :: ':' :: r => (hexToU64 (String.ofList r)).map .flt
+  | 's' :: ':' :: r => (unesc (String.ofList r)).map .str
+  | 'b' :: ':' :: r => some (.bool (String.ofList r == "1"))
+  | _ => none
+
+def renderVal : Val → String
+  | .int i => s!"i:{i}"
+  | .flt b => s!"f:{u64ToHex b}"
+  | .str s => s!"s:{esc s}"
+  | .bool b => if b then "b:1" else "b:0"
+
+def splitKV (kv : String) : Option (String × String) :=
+  match kv.splitOn "=" with
+  | [k, v] => some (k, v)
+  | _ => none
+
+def parseTags (tok : String) : Option Tags :=
+  if tok == "-" then some [] else do
+    let kvs ← (tok.splitOn ",").mapM splitKV
+    let l ← kvs.mapM (fun (k, v) => do pure ((← unesc k), (← unesc v)))
+    pure (l.foldl (fun acc p => upsert p.1 p.2 acc) [])
+
+def parseFields (tok : String) : Option Fields :=
+  if tok == "-" then some [] else do
+    let kvs ← (tok.splitOn ",").mapM splitKV
+    let l ← kvs.mapM (fun (k, v) => do pure ((← unesc k), (← parseVal v)))
+    pure (l.foldl (fun acc p => upsert p.1 p.2 acc) [])
+
+def renderTags (t : Tags) : String :=
+  if t.isEmpty then "-" else ",".intercalate (t.map (fun p => s!"{esc p.1}={esc p.2}"))
+def renderFields (f : Fields) : String :=
+  if f.isEmpty then "-" else ",".intercalate (f.map (fun p => s!"{esc p.1}={renderVal p.2}"))
+def renderDims (d : List String) : String := if d.isEmpty then "-" else ",".intercalate (d.map esc)
+
+def parsePt (gtags : Tags) (tok : String) : Option Pt :=
+  match tok.splitOn "|" with
+  | [t, tags, fields] => do
+    let extra ← parseTags tags
+    pure { time := (← t.toInt?), tags := mergeTags extra gtags, fields := (← parseFields fields) }
+  | _ => none
+
+def fnOfName : String → Option Fn
+  | "count" => some .count | "sum" => some .sum | "mean" => some .mean | "median" => some .median
+  | "mode" => some .mode | "min" => some .min | "max" => some .max | "first" => some .first
+  | "last" => some .last | "spread" => some .spread | "stddev" => some .stddev
+  | "distinct" => some .distinct | "percentile" => some .percentile | "top" => some .top
+  | "bottom" => some .bottom | "elapsed" => some .elapsed | "difference" => some .difference
+  | "cumulativeSum" => some .cumulativeSum | "movingAverage" => some .movingAverage
+  | _ => none
+
+def parseCfg (ts : List String) : Option (Bool × Cfg) :=
+  match ts with
+  | ["cfg", mode, fn, as_, pt, arg] => do
+    let f ← fnOfName fn
+    let asName ← if as_ == "-" then some fn else unesc as_
+    let stream ← if mode == "stream" then some true else if mode == "batch" then some false else none
+    let base : Cfg := { fn := f, as_ := asName, pointTimes := pt == "1" }
+    let cfg ← match arg.toList with
+      | ['-'] => some base
+      | 'p' :: ':' :: r => (hexToU64 (String.ofList r)).map (fun b => { base with pct := b })
+      | 'n' :: ':' :: r => (String.ofList r).toInt?.map (fun n => { base with n := n })
+      | 'u' :: ':' :: r => (String.ofList r).toInt?.map (fun n => { base with n := n })
+      | _ => none
+    pure (stream, cfg)
+  | _ => none
+
+def parseMsg (ts : List String) : Option Msg :=
+  match ts with
+  | ["b", g, tmax, pts] => do
+    let gt ← parseTags g
+    let ps ← if pts == "-" then some [] else (pts.splitOn ";").mapM (parsePt gt)
+    pure (.batch { gtags := gt, tmax := (← tmax.toInt?), pts := ps })
+  | ["p", g, pt] => do
+    let gt ← parseTags g
+    pure (.point gt (← parsePt gt pt))
+  | _ => none
+
+def renderOutPt (tag : String) (dims : Option (List String)) (p : OutPt) : String :=
+  match dims with
+  | some d => s!"{tag}|{p.time}|{renderDims d}|{renderTags p.tags}|{renderFields p.fields}"
+  | none => s!"{tag}|{p.time}|{renderTags p.tags}|{renderFields p.fields}"
+
+def renderOut : Out → List String
+  | .point dims p => [renderOutPt "P" (some dims) p]
+  | .batch tmax gtags pts => s!"B|{tmax}|{renderTags gtags}|{pts.length}" :: pts.map (renderOutPt "Q" none)
+  | .panic => ["PANIC"]
+
+def renderOuts (os : List Out) : List String := os.flatMap renderOut
+
+/-! ### recorded deviation (known finding `single-point-time`)
+
+`median` of ONE float point and `mode` of ONE point return that point itself from the vendored reducer
+(`if len(a) == 1 { return a }`), time included; with `.usePointTimes()` the emitted point is therefore stamped
+with the point's time although median/mode are aggregates. The clause is exact: the observed output must equal
+the spec output after re-stamping precisely those single-value batches. -/
+def devSinglePointTime (cfg : Cfg) (k : Kind) (xs : List QP) : Bool :=
+  cfg.pointTimes && xs.length == 1 && ((cfg.fn == .median && k == .float) || cfg.fn == .mode)
+
+def devAgg (cfg : Cfg) (gtags : Tags) (t : Int) (pts : List Pt) (emptyRule : Bool) : List Out × Bool :=
+  match Spec.batchKind cfg pts with
+  | some k =>
+    let xs := Spec.valuesOf cfg k pts
+    if devSinglePointTime cfg k xs then
+      match xs with
+      | [x] => (Spec.package cfg gtags x.time (Spec.meaning cfg k xs), true)
+      | _ => (Spec.specAgg cfg gtags t pts emptyRule, false)
+    else (Spec.specAgg cfg gtags t pts emptyRule, false)
+  | none => (Spec.specAgg cfg gtags t pts emptyRule, false)
+
+/-- the spec with the deviation applied; the flag says whether the clause fired anywhere -/
+def specWithDev (cfg : Cfg) (ms : List Msg) : List Out × Bool :=
+  (List.range ms.length).foldl (fun (acc : List Out × Bool) i =>
+    match (ms[i]? : Option Msg) with
+    | some (Msg.batch b) =>
+      if cfg.fn.isTransformation then (acc.1 ++ Spec.specBatch cfg b, acc.2)
+      else let (o, d) := devAgg cfg b.gtags b.tmax b.pts true; (acc.1 ++ o, acc.2 || d)
+    | some (Msg.point g p) =>
+      if cfg.fn.isTransformation then (acc.1 ++ Spec.specAt cfg (ms.take i) (.point g p), acc.2)
+      else
+        let prev := Spec.earlier g (ms.take i)
+        match prev.getLast? with
+        | none => acc
+        | some q => if q.time == p.time then acc else
+          let (o, d) := devAgg cfg g q.time (Spec.lastRun prev) false
+          (acc.1 ++ o, acc.2 || d)
+    | none => acc) ([], false)
+
+/-! ### coverage: which structural cases of the model a case exercises -/
+
+def fnName : Fn → String
+  | .count => "count" | .sum => "sum" | .mean => "mean" | .median => "median" | .mode => "mode"
+  | .min => "min" | .max => "max" | .first => "first" | .last => "last" | .spread => "spread"
+  | .stddev => "stddev" | .distinct => "distinct" | .percentile => "percentile" | .top => "top"
+  | .bottom => "bottom" | .elapsed => "elapsed" | .difference => "difference"
+  | .cumulativeSum => "cumulativeSum" | .movingAverage => "movingAverage"
+
+def kindName : Kind → String
+  | .float => "float" | .int => "int" | .string => "string" | .bool => "bool"
+
+structure Cov where
+  br : List String := []
+  emitting : Nat := 0
+  multi : Bool := false
+
+def Cov.add (c : Cov) (b : String) : Cov := if c.br.contains b then c else { c with br := b :: c.br }
+
+/-- replay the model message by message to see which branches fire -/
+def coverage (cfg : Cfg) (ms : List Msg) : Cov := Id.run do
+  let mut c : Cov := {}
+  let mut n : NodeSt := {}
+  c := c.add ("fn-" ++ fnName cfg.fn)
+  if cfg.pointTimes then c := c.add (if cfg.fn.isSimpleSelector || cfg.fn == .top || cfg.fn == .bottom then "pointtimes-selector" else "pointtimes-aggregate")
+  if cfg.fn.isSimpleSelector then c := c.add (if cfg.as_ == cfg.field then "selector-as-is-field" else "selector-renamed")
+  let mut lastKind : Option Kind := none
+  let mut lastGroup : Option Tags := none
+  for m in ms do
+    match m with
+    | .batch b =>
+      c := c.add "batch"
+      if b.pts.isEmpty then c := c.add (if cfg.fn.isEmptyOK then "empty-batch-emits" else "empty-batch-silent")
+      match Spec.batchKind cfg b.pts with
+      | some k =>
+        c := c.add ("kind-" ++ kindName k)
+        let xs := Spec.valuesOf cfg k b.pts
+        if xs.length ≥ 2 then c := { c with multi := true }
+        c := { c with emitting := c.emitting + 1 }
+        if xs.length < b.pts.length then c := c.add "points-skipped"
+        if b.pts.any (fun p => (lookup cfg.field p.fields).isNone) then c := c.add "missing-field"
+        if b.pts.any (fun p => match lookup cfg.field p.fields with | some v => v.kind != k | none => false) then c := c.add "wrong-type-in-batch"
+        match b.pts.head? with
+        | some p0 => if (Spec.usableKind cfg p0).isNone then c := c.add "first-point-unusable"
+        | none => pure ()
+        match lastKind with
+        | some k' =>
+          if k' != k then c := c.add (if lastGroup == some b.gtags then "kind-change-same-group" else "kind-change-other-group")
+          else c := c.add "cache-hit"
+        | none => pure ()
+        lastKind := some k
+        if cfg.fn == .percentile && (pctIndex xs.length cfg.pct).isNone then c := c.add "percentile-out-of-range"
+        if (cfg.fn == .top || cfg.fn == .bottom) && xs.length < cfg.n.toNat then c := c.add "top-fewer-than-n"
+        if cfg.fn == .movingAverage && xs.length < cfg.n.toNat then c := c.add "window-not-full"
+      | none =>
+        if !b.pts.isEmpty then
+          c := c.add "no-usable-point"
+          if b.pts.any (fun p => match lookup cfg.field p.fields with | some v => !supported cfg.fn v.kind | none => false) then
+            c := c.add "unsupported-kind"
+            if n.createFn.isSome then c := c.add "unsupported-kind-after-cached-creator"
+        if cfg.fn.isEmptyOK then lastKind := some .float
+      lastGroup := some b.gtags
+    | .point g p =>
+      c := c.add "stream"
+      match n.group g with
+      | none => c := c.add "new-group"
+      | some gs =>
+        if cfg.fn.isTransformation then pure ()
+        else if gs.time == p.time then c := c.add "same-time-aggregates"
+        else
+          c := c.add (if gs.rc.isSome then "time-change-emits" else "time-change-nothing-pending")
+          if decide (p.time < gs.time) then c := c.add "time-goes-back"
+          match gs.rc with
+          | some rc =>
+            c := { c with emitting := c.emitting + 1 }
+            if rc.pts.length ≥ 2 then c := { c with multi := true }
+          | none => pure ()
+      match lookup cfg.field p.fields with
+      | none => c := c.add "missing-field"
+      | some v =>
+        if !supported cfg.fn v.kind then c := c.add "unsupported-kind"
+        else
+          c := c.add ("kind-" ++ kindName v.kind)
+          match (n.group g).bind (·.rc) with
+          | some rc => if rc.kind != v.kind then c := c.add "wrong-type-in-run"
+          | none => pure ()
+          if n.currentKind.isSome && n.currentKind != some v.kind then c := c.add "kind-change"
+      if cfg.fn.isTransformation then
+        c := { c with emitting := c.emitting + 1, multi := true }
+    n := (step {} cfg n m).1
+  if n.groups.length ≥ 2 then c := c.add "several-groups"
+  return c
+
+def judge (_id : String) (lines : Array String) : Verdict := Id.run do
+  let mut cfg? : Option (Bool × Cfg) := none
+  let mut msgs : Array Msg := #[]
+  let mut obs? : Option (List String) := none
+  for l in lines do
+    let (opT, obs) := splitObs (tokens l)
+    match opT with
+    | "cfg" :: _ =>
+      match parseCfg opT with
+      | some c => cfg? := some c
+      | none => return .badop l
+    | "b" :: _ | "p" :: _ =>
+      match parseMsg opT with
+      | some m => msgs := msgs.push m
+      | none => return .badop l
+    | ["final"] => obs? := some obs
+    | _ => return .badop l
+  let some (isStream, cfg) := cfg? | return .badop "no cfg line"
+  let some obs := obs? | return .badop "no final line"
+  let ms := msgs.toList
+  -- mode consistency
+  if ms.any (fun m => match m with | .batch _ => isStream | .point _ _ => !isStream) then return .badop "message kind does not match the mode"
+  let status := obs.headD "none"
+  let observed := obs.drop 1
+  let specOut := renderOuts (Spec.spec cfg ms)
+  let modelOuts := run {} cfg ms
+  let modelOut := renderOuts modelOuts
+  let cov := coverage cfg ms
+  -- 1. the property itself, on what the implementation did
+  if status != "ok" then
+    return .specfail "node-survives" s!"the task ended with status {status}; spec expects {specOut}"
+  if observed != specOut then
+    let (devOuts, fired) := specWithDev cfg ms
+    if fired && observed == renderOuts devOuts then
+      if observed != modelOut then return .mismatch s!"model {modelOut} observed {observed}"
+      return .known "single-point-time" s!"median/mode of a single point stamped with the point's time: spec {specOut} observed {observed}"
+    return .specfail "aggregate-equals-definition" s!"spec {specOut} observed {observed}"
+  -- 2. the tie
+  if observed != modelOut then return .mismatch s!"model {modelOut} observed {observed}"
+  return .ok (cov.emitting ≥ 2 && cov.multi) cov.br.reverse
+
+end Kap.C11.Drv
+
+def main : IO Unit := Kap.driverMain Kap.C11.Drv.judge
